@@ -25,7 +25,10 @@ def build_envs(group):
     elif kind == "tagged":
         envs = cb.Environments(K.TaggedEnv(**kw))
     elif kind == "cached":
-        envs = cb.Environments(K.CachedEnv(**kw))
+        # the cache entry is named after the key AND the size of the data set: two environments may share an entry (and contend for it), but two
+        # different data sets under one name would be the spec's own error - whichever is read first would win, in any configuration
+        # (the generator draws key and n independently, and the shrinker halves n per environment)
+        envs = cb.Environments(K.CachedEnv(**{**kw, "key": f"{kw['key']}n{kw['n']}"}))
     elif kind == "supervised":
         X = [tuple(r) for r in kw["X"]]
         if kw.get("via") == "source":
